@@ -312,6 +312,13 @@ class ValuesView:
         self.d, self.what = d, what   # what in values/keys/items
 
 
+class OrdIter:
+    """marker: a dict (view) being enumerated by position in its insertion order (bound variable = position)"""
+
+    def __init__(self, coll):
+        self.coll = coll
+
+
 class SymSet:
     """functional (non-heap) set given by its characteristic array; result of set comprehensions."""
 
@@ -718,13 +725,21 @@ class PathRunner:
             r = self._check(neg, timeout=min(1500, self.budget.obl_ms))
             backend = 'z3'
             if r == z3.unknown:
-                r, backend, model = self._bounded_refute(neg, model_probe)
+                # quantifier instantiation is sensitive to the search order: a few short attempts with fresh solvers and
+                # different seeds settle most of the provable cases the incremental solver misses
+                r, backend = self._portfolio(neg)
+            if r == z3.unknown:
+                r, backend, model = self._bounded_refute(neg, model_probe, ((2, 5, 3000), (4, 9, 3000)))
             if r == z3.unknown:
                 if name in self.refuted_names:
                     backend = 'z3 (budget cut: same obligation already refuted on another path)'
                 else:
                     r = self._check(neg, timeout=self.budget.obl_ms)
                     backend = 'z3'
+                    if r == z3.unknown:
+                        # functions walking long object chains (supvisors -> context -> instances -> status -> id ->
+                        # view, plus the collections they build) have no counter-model with fewer than ~15-20 objects
+                        r, backend, model = self._bounded_refute(neg, model_probe, ((3, 14, 10000), (3, 20, 20000)))
                     if r == z3.unknown:
                         r, backend = self._second_opinion(neg)
             verdict = _verdict(r)
@@ -763,15 +778,35 @@ class PathRunner:
             print(f'[trace] path {self.paths} {verdict} {name} {backend} {ob.seconds:.2f}s', flush=True)
         return verdict == 'discharged'
 
-    def _bounded_refute(self, neg, model_probe):
+    def _portfolio(self, neg):
+        t0 = time.time()
+        try:
+            for seed in (0, 1, 2):
+                s = z3.Solver()
+                s.set('timeout', min(4000, self.budget.obl_ms))
+                s.set('random_seed', seed)
+                s.add(*self.pc)
+                s.add(neg)
+                try:
+                    r = s.check()
+                except z3.Z3Exception:
+                    r = z3.unknown
+                self.queries += 1
+                if r != z3.unknown:
+                    return r, f'z3(fresh, seed {seed})'
+            return z3.unknown, 'z3'
+        finally:
+            self.solver_seconds += time.time() - t0
+
+    def _bounded_refute(self, neg, model_probe, stages=((2, 5, 3000), (4, 9, 3000))):
         """z3 answered unknown (quantifiers on the satisfiable side): finite-universe counter-model search, see
         finite.py. sat is a genuine model of pc and not claim; anything else decides nothing."""
         from . import finite
         t0 = time.time()
         try:
-            for es, er in ((2, 5), (4, 9)):
+            for es, er, ms in stages:
                 try:
-                    r, m, info = finite.refute(self.pc, neg, es, er, 3000, self.str_consts)
+                    r, m, info = finite.refute(self.pc, neg, es, er, ms, self.str_consts)
                 except z3.Z3Exception as e:
                     return z3.unknown, 'z3', None
                 if r == z3.sat:
